@@ -29,7 +29,7 @@ def run(ck):
     machine.run_family(ck, "error-positions", progs)
     # (e) load-time link errors: the root cause and every use() call site on the way out, for all script sets of the Loader spec
     scripts, mc = ('{"a","b","c"}', 2)
-    cfg = ("CONSTANTS Scripts = %s\nMissing = \"zz\"\nMaxCalls = %d\nSPECIFICATION Spec\nINVARIANTS ChainShape Emit\n"
+    cfg = ("CONSTANTS Scripts = %s\nMissing = \"zz\"\nMaxCalls = %d\nRelink = FALSE\nSPECIFICATION Spec\nINVARIANTS ChainShape Emit\n"
            "CHECK_DEADLOCK FALSE\n") % (scripts, mc)
     res, rows = tlc_emit(ck, "Loader", cfg, "Loader(%s,calls<=%d)" % (scripts, mc), timeout=1700, xmx="24g")
     replay(ck, "replay-loader", rows, "link-error-positions")
